@@ -56,6 +56,8 @@ Acq(o) == o \in {"SeqCst", "AcqRel", "Acquire"}
 ChanW == 1
 CtlW == 7             \* optional control Waker of a channel case (created before the channel)
 HasCtl == CtlW \in DOMAIN WakerBits
+\* further plain Wakers of a channel / piped case (ordinary logging handlers)
+PlainW == IF Kind = "waker" THEN DOMAIN WakerBits ELSE DOMAIN WakerBits \ {ChanW, CtlW}
 MaxBm == IF DOMAIN WakerBits = {} THEN 0 ELSE BmOf(Max({WakerBits[w] : w \in DOMAIN WakerBits}))
 \* slab index of the single Waker of a channel / piped thread (1 unless filler
 \* wakers were created first: WakerBits then gives its index)
@@ -77,10 +79,11 @@ SInit ==
     rel |-> << >>,        \* location -> view released there
     notified |-> FALSE,
     handlers |-> IF Kind = "waker" THEN {WakerBits[w] : w \in DOMAIN WakerBits}
-                 ELSE {ChanBit} \cup (IF HasCtl THEN {WakerBits[CtlW]} ELSE {}),
+                 ELSE {ChanBit} \cup {WakerBits[w] : w \in DOMAIN WakerBits \ {ChanW}},
     wbit |-> IF Kind = "waker" THEN WakerBits
-             ELSE (ChanW :> ChanBit) @@ (IF HasCtl THEN (CtlW :> WakerBits[CtlW]) ELSE << >>),   \* live waker -> bit
-    hid |-> IF Kind = "waker" THEN WakerBits ELSE (ChanW :> ChanBit),    \* installed handler of waker -> bit
+             ELSE (ChanW :> ChanBit) @@ [w \in DOMAIN WakerBits \ {ChanW} |-> WakerBits[w]],   \* live waker -> bit
+    hid |-> IF Kind = "waker" THEN WakerBits
+            ELSE (ChanW :> ChanBit) @@ [w \in PlainW |-> WakerBits[w]],    \* installed handler of waker -> bit
     free |-> << >>,       \* freed slab slots, most recent first
     nextBit |-> IF Kind = "waker" THEN Max({WakerBits[w] : w \in DOMAIN WakerBits}) + 1 ELSE ChanBit + 1,
     fq |-> << >>,
@@ -96,7 +99,7 @@ SInit ==
 Init ==
   /\ s = SInit
   /\ mon = [CInit0({}) EXCEPT !.known = IF Kind = "waker" THEN DOMAIN WakerBits
-                                          ELSE {ChanW} \cup (IF HasCtl THEN {CtlW} ELSE {}),
+                                          ELSE {ChanW} \cup (DOMAIN WakerBits \ {ChanW}),
                               !.piped = Kind = "piped"]
   /\ bad = {}
   /\ hist = [sched |-> << >>, lo |-> << >>, hi |-> << >>]
@@ -201,7 +204,7 @@ ProcessRv(x) ==
           THEN \* control handler: drops the ChannelGuard from inside poll_wake
                [Emit(Emit(x1, 0, [e |-> "handler", w |-> CtlW, deleted |-> FALSE]), 0, [e |-> "guard_drop_begin"])
                   EXCEPT !.th[0].pc = "lock_ch", !.th[0].ret = "gdrop_h"]
-          ELSE IF Kind = "waker"
+          ELSE IF Kind = "waker" \/ \E w \in PlainW : w \in DOMAIN x.hid /\ x.hid[w] = bit
           THEN LET ws == {w \in DOMAIN x.hid : x.hid[w] = bit} IN
                ProcessRv(IF ws = {} THEN x1
                          ELSE Emit(x1, 0, [e |-> "handler", w |-> CHOOSE w \in ws : TRUE, deleted |-> FALSE]))
@@ -215,7 +218,7 @@ ProcessDel(x, bits) ==
   ELSE LET bit == Head(bits) IN
        IF IsBase(bit) \/ bit \notin x.handlers THEN ProcessDel(x, Tail(bits))
        ELSE LET x1 == [x EXCEPT !.handlers = @ \ {bit}, !.free = <<bit>> \o @] IN
-            IF Kind = "waker"
+            IF Kind = "waker" \/ \E pw \in PlainW : pw \in DOMAIN x.hid /\ x.hid[pw] = bit
             THEN LET ws == {w \in DOMAIN x.hid : x.hid[w] = bit}
                      w == CHOOSE w \in ws : TRUE
                  IN ProcessDel(Emit([x1 EXCEPT !.hid = [k \in DOMAIN @ \ {w} |-> @[k]]], 0,
